@@ -131,10 +131,19 @@ type c40Vals struct {
 	ExatMs int64             `json:"exat_ms"` // 0: no expiry; else expiry = virtual now + this many ms (far future)
 }
 
+// c40Elem is one entity of a SaveMulti batch: a copy of slot Ent's current in-memory entity with new values
+// ("fresh"; a second copy of the same slot is a duplicate writer on the same version) or a copy of an outdated
+// in-memory state of that slot ("stale").
+type c40Elem struct {
+	Ent  int    `json:"ent"`
+	Mode string `json:"mode"` // fresh stale
+}
+
 type c40Step struct {
-	Kind   string    `json:"kind"` // new save fetch race stale remove
+	Kind   string    `json:"kind"` // new save fetch race stale remove multi
 	Ent    int       `json:"ent"`
-	Key    string    `json:"key,omitempty"` // new: "" => keep the ULID of NewEntity
+	Elems  []c40Elem `json:"elems,omitempty"` // multi: one per entry of Vals
+	Key    string    `json:"key,omitempty"`   // new: "" => keep the ULID of NewEntity
 	Vals   []c40Vals `json:"vals,omitempty"`
 	OffUs  []int     `json:"off_us,omitempty"` // race: start offset of each Save
 	Cached bool      `json:"cached,omitempty"` // verification read through FetchCache instead of Fetch
@@ -263,7 +272,7 @@ func genC40Plan(rt *rapid.T) c40Plan {
 		if !exists[st.Ent] {
 			st.Kind = "new"
 		} else {
-			st.Kind = rapid.SampledFrom([]string{"save", "save", "fetch", "race", "race", "race", "stale", "remove", "new"}).Draw(rt, "kind")
+			st.Kind = rapid.SampledFrom([]string{"save", "save", "fetch", "race", "race", "race", "stale", "remove", "new", "multi", "multi", "multi"}).Draw(rt, "kind")
 		}
 		switch st.Kind {
 		case "new":
@@ -284,6 +293,16 @@ func genC40Plan(rt *rapid.T) c40Plan {
 				} else {
 					st.OffUs = append(st.OffUs, rapid.SampledFrom([]int{0, 0, 1, 100, 400, 2000}).Draw(rt, "off"))
 				}
+			}
+		case "multi":
+			k := rapid.IntRange(2, 6).Draw(rt, "batch")
+			for j := 0; j < k; j++ {
+				el := c40Elem{Ent: rapid.IntRange(0, 1).Draw(rt, "elEnt"), Mode: rapid.SampledFrom([]string{"fresh", "fresh", "stale"}).Draw(rt, "elMode")}
+				if j == 0 {
+					el.Ent = st.Ent // at least one element of an existing record
+				}
+				st.Elems = append(st.Elems, el)
+				st.Vals = append(st.Vals, c40GenVals(rt, hash))
 			}
 		case "remove":
 			exists[st.Ent] = false
@@ -472,6 +491,8 @@ func c40Show(v reflect.Value) string {
 
 type c40SaveObs struct {
 	Racer    int    `json:"racer"`
+	Slot     int    `json:"slot"`
+	Mode     string `json:"mode,omitempty"` // multi: fresh stale
 	BaseVer  int64  `json:"base_ver"`
 	AfterVer int64  `json:"after_ver"`
 	Err      string `json:"err,omitempty"`
@@ -727,6 +748,74 @@ func c40Exec[T any](t *testing.T, plan c40Plan, mk func(c rueidis.Client) om.Rep
 					}
 				}
 				verify(o, slot, st.Cached)
+			case "multi":
+				var ents []*T
+				var saves []c40SaveObs
+				pushed := map[int]bool{}
+				for j, el := range st.Elems {
+					if model[el.Ent] == nil {
+						continue // no record: every version would be accepted, nothing to tell apart
+					}
+					var e *T
+					mode := el.Mode
+					if mode == "stale" && (len(history[el.Ent]) == 0 || verOf(history[el.Ent][0]) >= verOf(mem[el.Ent])) {
+						mode = "fresh"
+					}
+					if mode == "stale" {
+						e = c40CloneEnt(history[el.Ent][0])
+					} else {
+						e = c40CloneEnt(mem[el.Ent])
+					}
+					c40Apply(e, st.Vals[j], time.Now())
+					ents = append(ents, e)
+					saves = append(saves, c40SaveObs{Racer: j, Slot: el.Ent, Mode: mode, BaseVer: verOf(e), ent: e, StartUs: clock.Us()})
+				}
+				if len(ents) == 0 {
+					o.Kind = "multi-skipped"
+					break
+				}
+				for _, so := range saves {
+					if !pushed[so.Slot] {
+						pushed[so.Slot] = true
+						history[so.Slot] = append(history[so.Slot], c40CloneEnt(mem[so.Slot]))
+					}
+				}
+				var errs []error
+				if !sim.CallTimeout(time.Minute, func() { errs = repo.SaveMulti(ctx, ents...) }) {
+					mu.Lock()
+					run.Pending = true
+					mu.Unlock()
+					goto out
+				}
+				for j := range saves {
+					saves[j].EndUs, saves[j].Done, saves[j].AfterVer = clock.Us(), true, verOf(ents[j])
+					var err error = errors.New("harness: SaveMulti returned fewer errors than entities")
+					if j < len(errs) {
+						err = errs[j]
+					}
+					if err != nil {
+						saves[j].Err = err.Error()
+						saves[j].Mismatch = errors.Is(err, om.ErrVersionMismatch)
+						if isUnsupp(err) {
+							mu.Lock()
+							run.Unsupp = true
+							mu.Unlock()
+						}
+					} else if saves[j].Mode != "stale" {
+						mem[saves[j].Slot] = ents[j]
+						model[saves[j].Slot] = c40CloneEnt(ents[j])
+					}
+				}
+				o.Saves = saves
+				for _, sl := range []int{0, 1} {
+					if pushed[sl] {
+						vo := &c40StepObs{Step: si, Kind: "multi-verify", ModelVer: -1}
+						mu.Lock()
+						run.Obs = append(run.Obs, vo)
+						mu.Unlock()
+						verify(vo, sl, st.Cached)
+					}
+				}
 			case "remove":
 				e := mem[slot]
 				if err := repo.Remove(ctx, keyOf(e)); err != nil {
@@ -754,6 +843,7 @@ func c40Check(c *stat.Collector, rt stat.Fataler, plan c40Plan, run c40Run) (nt 
 	}
 	cls := map[string]bool{plan.Repo: true}
 	maxRace := 0
+	multiBatch := false
 	for _, o := range run.Obs {
 		where := fmt.Sprintf("step %d (%s)", o.Step, o.Kind)
 		for _, v := range o.viol {
@@ -790,6 +880,53 @@ func c40Check(c *stat.Collector, rt stat.Fataler, plan c40Plan, run c40Run) (nt 
 			}
 			if ok == 0 {
 				c.Fail(rt, "C40.current-version-saves", fmt.Sprintf("%s: no Save based on the current version %d succeeded although nothing else wrote the record: %s", where, o.Saves[0].BaseVer, c40J2(o.Saves)), plan)
+			}
+		case "multi":
+			cls["multi-batch"] = true
+			if len(o.Saves) >= 2 {
+				multiBatch = true
+			}
+			for _, sl := range []int{0, 1} {
+				var cur, stale []c40SaveObs
+				for _, so := range o.Saves {
+					if so.Slot == sl && so.Mode == "stale" {
+						stale = append(stale, so)
+					} else if so.Slot == sl {
+						cur = append(cur, so)
+					}
+				}
+				wins, bad := 0, 0
+				for _, so := range cur {
+					if so.Err == "" {
+						wins++
+					} else if !so.Mismatch {
+						bad++
+					}
+				}
+				if len(cur) >= 2 {
+					cls["multi-duplicate-writers"] = true
+				}
+				if wins > 1 {
+					c.Fail(rt, "C40.at-most-one-winner", fmt.Sprintf("%s: %d entities of one SaveMulti batch based on version %d of entity %d were saved: %s", where, wins, cur[0].BaseVer, sl, c40J2(o.Saves)), plan)
+				}
+				if bad > 0 {
+					c.Fail(rt, "C40.losers-get-version-mismatch", fmt.Sprintf("%s: the losing writers of entity %d in a SaveMulti batch must get ErrVersionMismatch: %s", where, sl, c40J2(o.Saves)), plan)
+				}
+				if len(cur) > 0 && wins == 0 {
+					c.Fail(rt, "C40.current-version-saves", fmt.Sprintf("%s: no element of the SaveMulti batch based on the current version %d of entity %d was saved although nothing else wrote the record: %s", where, cur[0].BaseVer, sl, c40J2(o.Saves)), plan)
+				}
+				for _, so := range stale {
+					cls["multi-stale-element"] = true
+					if so.Err == "" || !so.Mismatch {
+						c.Fail(rt, "C40.stale-save-rejected", fmt.Sprintf("%s: element %d of the SaveMulti batch is based on the outdated version %d of entity %d and must get ErrVersionMismatch: %s", where, so.Racer, so.BaseVer, sl, c40J2(o.Saves)), plan)
+					}
+				}
+			}
+			// the situation the positional result handling must get right: a rejected element followed by others
+			for j, so := range o.Saves {
+				if so.Err != "" && j < len(o.Saves)-1 {
+					cls["multi-mismatch-not-last"] = true
+				}
 			}
 		case "stale":
 			cls["stale-save"] = true
@@ -870,7 +1007,7 @@ func c40Check(c *stat.Collector, rt stat.Fataler, plan c40Plan, run c40Run) (nt 
 		classes = append(classes, k)
 	}
 	sort.Strings(classes)
-	return maxRace >= 2 || extreme, classes
+	return maxRace >= 2 || multiBatch || extreme, classes
 }
 
 func c40J2(v any) string {
@@ -885,7 +1022,7 @@ func TestVerif_C40_OM(t *testing.T) {
 	// WaitGroup.Add called from multiple synctest bubbles" or in a GC worker spinning for ever in
 	// markrootSpans. One P serialises those calls.
 	defer runtime.GOMAXPROCS(runtime.GOMAXPROCS(1))
-	c := stat.For("C40", "om-save-fetch").Rule("histories of 2-10 steps over two entity slots on om.NewHashRepository (struct with every kind of the hash converter table: string, int64, bool, time.Time, nested struct, *string, *int64, *bool, *struct, []byte, []float32, []float64, []struct, untagged field, key/ver/exat tags) or om.NewJSONRepository (the same plus int/uint widths, floats, *float64, []string, []int, map, array): NewEntity(+custom id)/Save, Save of changed fields, Fetch or FetchCache, 1-5 concurrent Saves of copies of the current entity at equal or staggered virtual instants, Save from an outdated copy, Remove; values include empty strings, non-UTF-8 bytes (hash strings, []byte), int64/float extremes, nil/non-nil pointers, nil/empty slices; server latency 0-1 ms; oracle: per base version at most one concurrent Save succeeds and the others are ErrVersionMismatch, outdated copies are rejected, a successful Save advances the in-memory version by exactly one and the stored version (HGET / JSON.GET by another client) equals it, Fetch/FetchCache equals the last successfully saved entity (nil == empty), the hash holds every field; non-trivial = >= 2 concurrent Saves on one base version or a non-UTF-8 / extreme numeric field value")
+	c := stat.For("C40", "om-save-fetch").Rule("histories of 2-10 steps over two entity slots on om.NewHashRepository (struct with every kind of the hash converter table: string, int64, bool, time.Time, nested struct, *string, *int64, *bool, *struct, []byte, []float32, []float64, []struct, untagged field, key/ver/exat tags) or om.NewJSONRepository (the same plus int/uint widths, floats, *float64, []string, []int, map, array): NewEntity(+custom id)/Save, Save of changed fields, Fetch or FetchCache, 1-5 concurrent Saves of copies of the current entity at equal or staggered virtual instants, Save from an outdated copy, SaveMulti batches of 2-6 entities over both slots (copies of the current entity incl. duplicates of one id on the same version, outdated copies at any position), Remove; values include empty strings, non-UTF-8 bytes (hash strings, []byte), int64/float extremes, nil/non-nil pointers, nil/empty slices; server latency 0-1 ms; oracle: per base version at most one concurrent Save succeeds and the others are ErrVersionMismatch, outdated copies are rejected, a successful Save advances the in-memory version by exactly one and the stored version (HGET / JSON.GET by another client) equals it, Fetch/FetchCache equals the last successfully saved entity (nil == empty), the hash holds every field; non-trivial = >= 2 concurrent Saves on one base version, a SaveMulti batch of >= 2 entities or a non-UTF-8 / extreme numeric field value")
 	defer c.Flush()
 	rapid.Check(t, func(rt *rapid.T) {
 		plan := genC40Plan(rt)
